@@ -19,7 +19,7 @@ var defaultStubPkgs = []string{
 }
 
 var defaultSkipInit = []string{
-	"os", "syscall", "runtime", "internal/cpu", "internal/poll", "os/signal", "net", "os/exec", "os/user",
+	"os", "syscall", "runtime", "internal/cpu", "internal/poll", "os/signal", "os/exec", "os/user",
 	"internal/godebug", "internal/syscall/unix", "crypto/internal/fips140/check", "internal/runtime/maps",
 	"testing", "flag", "internal/bisect", "crypto/rand", "math/rand", "math/rand/v2", "time",
 }
@@ -69,6 +69,22 @@ func init() {
 	} {
 		externals[n] = nop
 	}
+	lock := func(fr *frame, args []value) value {
+		if m := fr.i.race; m != nil && m.on {
+			m.held[args[0].(*value)] = true
+		}
+		return nil
+	}
+	unlock := func(fr *frame, args []value) value {
+		if m := fr.i.race; m != nil && m.on {
+			delete(m.held, args[0].(*value))
+		}
+		return nil
+	}
+	externals["(*sync.Mutex).Lock"] = lock
+	externals["(*sync.Mutex).Unlock"] = unlock
+	externals["(*sync.RWMutex).Lock"] = lock
+	externals["(*sync.RWMutex).Unlock"] = unlock
 	externals["(*sync.Mutex).TryLock"] = func(fr *frame, args []value) value { return true }
 	externals["(*sync.WaitGroup).Wait"] = func(fr *frame, args []value) value { fr.i.runGoroutines(); return nil }
 	externals["(*sync.WaitGroup).Go"] = func(fr *frame, args []value) value {
@@ -322,3 +338,23 @@ func (in *interpreter) findMethod(t types.Type, name string) *ssa.Function {
 }
 
 var _ = fmt.Sprintf
+
+// hash/maphash: any hash function is semantically acceptable for the caches that use it; model
+// the worst case (every input collides) so the code's own equality checks decide.
+func init() {
+	nopv := func(fr *frame, args []value) value { return nil }
+	externals["(*hash/maphash.Hash).SetSeed"] = nopv
+	externals["(*hash/maphash.Hash).Reset"] = nopv
+	externals["(*hash/maphash.Hash).WriteString"] = func(fr *frame, args []value) value {
+		b, _ := bytesOfStr(args[1])
+		return tuple{len(b), iface{}}
+	}
+	externals["(*hash/maphash.Hash).WriteByte"] = func(fr *frame, args []value) value { return iface{} }
+	externals["(*hash/maphash.Hash).Write"] = func(fr *frame, args []value) value {
+		return tuple{len(args[1].([]value)), iface{}}
+	}
+	externals["(*hash/maphash.Hash).Sum64"] = func(fr *frame, args []value) value { return uint64(0) }
+	externals["hash/maphash.MakeSeed"] = func(fr *frame, args []value) value { return structure{uint64(1)} }
+	externals["hash/maphash.String"] = func(fr *frame, args []value) value { return uint64(0) }
+	externals["hash/maphash.Bytes"] = func(fr *frame, args []value) value { return uint64(0) }
+}
